@@ -541,11 +541,12 @@ def eval_cell(case):
     return out, info
 
 
-# finding D32: an implementation whose designated cell is one of its ports (Verilog-style feed-through input cell -> fork -> output
-# cell as first output). substitute() gives the instance the kind of the port cell and copies the line port cell -> fork, whose
-# reader pin is then taken by the instance's own input line: the circuit is no longer well-formed (Lean witness
-# C10.substitute_designated_port_not_wf), and a following copy() / pickle round trip connects the fork to the stale line.
-# The case is replayed every run from corpus/C10-designated-port.json.
+# D32 (fixed): an implementation whose walk for the designated cell ends at one of its ports (Verilog-style feed-through input cell ->
+# fork -> output cell as first output). Before the repair substitute() gave the instance the kind of the port cell and copied the line
+# port cell -> fork, whose reader pin was then taken by the instance's own input line: the circuit was no longer well-formed (Lean
+# witness C10.substitute_designated_port_not_wf about the earlier rule), and a following copy() / pickle round trip connected the fork
+# to the stale line. Since the repair such an implementation has no designated cell (C10.substitute_feedthrough_repaired).
+# The case is replayed every run from corpus/C10-designated-port.json: a violation if the behaviour returns.
 FEEDTHROUGH = {'kind': 'subst-copy', 'cell': 'u',
                'host': {'nodes': [['i', 'input'], ['u', 'CELL'], ['o', 'output']], 'lines': [[0, 0, 1, 0], [1, 0, 2, 0]], 'io': [0, 2]},
                'impl': {'nodes': [['A', 'input'], ['a', '__fork__'], ['X', 'output']], 'lines': [[0, 0, 1, 0], [1, 0, 2, 0]], 'io': [0, 2]}}
@@ -851,14 +852,24 @@ def rand_impl(rng):
         forks = {}
         for a in ins:
             n = Node(c, a, 'input'); c.io_nodes.append(n); forks[a] = Node(c, a); Line(c, n, forks[a])
+        tags = ['vstyle']
+        # output ports created as soon as their signal exists: the port's line gets a LOWER fork pin than later readers, so an open
+        # instance pin leaves a gap in the copied fork (shape of D30)
+        early = rng.random() < 0.4
+        if ins and rng.random() < 0.12:    # feed-through as FIRST output: the walk for the designated cell ends at a port (shape of D32)
+            n = Node(c, 'ft0_o', 'output'); c.io_nodes.append(n); Line(c, forks[rng.choice(ins)], n); tags.append('feedthrough-first')
+        done = set()
         for name, kind, args in gates:
             cell = Node(c, name, kind); forks[name] = Node(c, name); Line(c, cell, forks[name])
             for a in args: Line(c, forks[a], cell)
+            if early and name in outs:
+                n = Node(c, name + '_o', 'output'); c.io_nodes.append(n); Line(c, forks[name], n); done.add(name)
+        if done: tags.append('early-out-ports')
         for o in outs:
+            if o in done: continue
             n = Node(c, o + '_o', 'output'); c.io_nodes.append(n); Line(c, forks[o], n)
         if ins and rng.random() < 0.15:    # feed-through: an input port wired to an output port
             n = Node(c, 'ft_o', 'output'); c.io_nodes.append(n); Line(c, forks[rng.choice(ins)], n)
-        tags = ['vstyle']
     else:
         txt = (f"input({','.join(ins)}) " if ins else '') + (f"output({','.join(outs)}) " if outs else '') + \
               ' '.join(f"{n}={kd}({','.join(a)})" for n, kd, a in gates)
@@ -932,14 +943,24 @@ def is_regular(c, u, impl):
     """the case of theorems substitute_regular / substitute_wiring (model predicate regularB)"""
     ins = [q for q in impl.io_nodes if len(q.ins) == 0]
     outs = [q for q in impl.io_nodes if len(q.ins) > 0]
-    if not outs and not any(q.kind != '__fork__' and is_state(q.kind) for q in impl.nodes): return False
+    if not any(q.kind != '__fork__' and is_state(q.kind) for q in impl.nodes):
+        if not outs: return False
+        # the designated cell: walk from the first output through forks that are no ports; a port is no designated cell (repair of D32)
+        try:
+            q, ios = outs[0].ins[0].driver, set(impl.io_nodes)
+            for _ in range(len(impl.nodes) + 1):
+                if not (q.kind == '__fork__' and q not in ios): break
+                q = q.ins[0].driver
+            if q in ios: return False
+        except Exception:
+            pass                            # the real call raises: not compared
     if len(u.ins) > len(ins) or len(u.outs) != len(outs) or any(l is None for l in u.outs): return False
     return all(l is None or len(q.outs) > 0 for q, l in zip(ins, list(u.ins)))
 
 
 def corr_subst(ck, n):
     rng = ck.rng
-    raised = changed = covered = covered_rm = 0
+    raised = changed = covered = covered_rm = covered_gap = 0
     for it in range(n):
         impl, itags = lib_impl(rng) if rng.random() < 0.3 else rand_impl(rng)
         c, htags = rand_host(rng, impl)
@@ -992,6 +1013,8 @@ def corr_subst(ck, n):
                         ck.broken_tie('substitute_sem_removing: wfNoTrail of the result', f'wfNoTrail(model result) = {hyp[9]}', inp={'request': req})
                 if not failed:
                     covered += 1
+                    if len(hyp) > 10 and hyp[10] == '0':      # a copied fork had a gap (D30 shape): the theorems hold WITH densify
+                        covered_gap += 1; semtag = 'sem-hyp:covered-gap'
                     rwf = common.run_driver([f'xform wf {names_arg(c)} {circ.dump_net(c)}'])[0]
                     if rwf != '1' or hyp[7] != '1':
                         ck.broken_tie('substitute_wf on the real result', f'hypotheses of substitute_sem hold but wf(real result) = {rwf}, '
@@ -1005,6 +1028,7 @@ def corr_subst(ck, n):
     ck.extra['corr_subst_with_removed_nodes'] = changed
     ck.extra['corr_subst_in_hypotheses_of_substitute_sem'] = covered
     ck.extra['corr_subst_in_hypotheses_of_substitute_sem_removing'] = covered_rm
+    ck.extra['corr_subst_in_hypotheses_of_substitute_sem_with_fork_gap'] = covered_gap
 
 
 def corr_resolve(ck, n):
@@ -1222,8 +1246,9 @@ def run(ck):
         'elim_sem is stated for every consistent labelling (no uniqueness needed); that LogicSim computes a consistent labelling is C01',
         'substitute: ports, state elements (up to order; names and order in the regular same-class case), pin-by-pin wiring and '
         'the equations outside the cell are theorems about the model; substitute_sem / substitute_sem_removing / resolve_sem (the copied '
-        'implementation has the relational meaning of the cell) are theorems about the model under decidable hypotheses (designated '
-        'cell that is no port, no connected-but-ignored input pin, implOKB; resolve: no substitution removes anything) - the harness '
+        'implementation has the relational meaning of the cell) are theorems about the model under decidable hypotheses (a designated '
+        'cell exists, no connected-but-ignored input pin, implOKB; resolve: no substitution removes anything; copied forks with a gap '
+        'squeezed by the code repaired for D30 are included) - the harness '
         'counts the real cases inside these hypotheses (driver substok / resolveok) and checks the well-formedness of the real '
         'result there; outside them the function after substitute / resolve_tlib_cells is validated by simulation before/after only',
         'the function is observed through the real LogicSim(m=2) (C01); reference of a circuit with library cells = the same '
